@@ -11,6 +11,7 @@ Exit codes: 0 property held on everything explored, 1 violation, 2 machinery fai
 """
 import hashlib
 import json
+import gc
 import multiprocessing
 import os
 import re
@@ -264,8 +265,15 @@ def pmap(fn, items, chunk=50, nproc=None):
         res = [_worker(c) for c in chunks]
     else:
         ctx = multiprocessing.get_context("fork")
-        with ctx.Pool(min(nproc, len(chunks))) as pool:
-            res = pool.map(_worker, chunks)
+        # the workers inherit the parent's heap (hundreds of thousands of vectors in the thorough tiers); without freezing it the cyclic
+        # collector of every worker walks - and thereby copies - all of it (C19 thorough: 4 GB of private pages per worker)
+        gc.collect()
+        gc.freeze()
+        try:
+            with ctx.Pool(min(nproc, len(chunks))) as pool:
+                res = pool.map(_worker, chunks)
+        finally:
+            gc.unfreeze()
     flat = [r for c in res for r in c]
     for r in flat:
         if isinstance(r, dict) and "machinery" in r:
